@@ -249,6 +249,8 @@ def run(chk):
            key="realsize|max")
     chk.floor(R6 + ":grid", nev, 25 if bad is None else 0)
 
+    from lib import flattenrule
+    flattenrule.run(chk)
     return chk.finish(
         level="other",
         explanation=("Structural clauses over CodeHolder's layout/copy functions: every write into the caller's buffer is proved to stay in "
